@@ -72,6 +72,35 @@ structure Element where
   id : Nat
   deriving DecidableEq, Repr, Inhabited
 
+/-- `http.ResponseWriter`: opaque; what a translated handler does to it is the handler's trace (`List Event`) -/
+structure ResponseWriter where
+  id : Nat
+  deriving DecidableEq, Repr, Inhabited
+
+/-- one effect of a translated HTTP handler on its ResponseWriter: the callee as written in the source, and its string, error
+    and status arguments -/
+structure Event where
+  name : String
+  args : List String
+  deriving DecidableEq, Repr, Inhabited
+
+/-- how an error argument is recorded in a trace -/
+def errStr : GoError → String
+  | none => "nil"
+  | some e => e
+
+/-- `*http.Cookie` as the translated code reads it -/
+structure Cookie where
+  Name : String
+  Value : String
+  deriving DecidableEq, Repr, Inhabited
+
+/-- `strings.HasPrefix` -/
+def hasPrefix (s p : String) : Bool := p.toList.isPrefixOf s.toList
+
+/-- `strings.TrimPrefix` -/
+def trimPrefix (s p : String) : String := if hasPrefix s p then String.ofList (s.toList.drop p.toList.length) else s
+
 /-- `*x509.Certificate`: opaque (which key it certifies is the business of the signature layer) -/
 structure Certificate where
   id : Nat
